@@ -41,7 +41,7 @@ var (
 	words     = []string{"a", "A", "ab", "Ab", "abc", "b", "v1", "V1", "", "x-y", "GET", "get", "POST", "80", "8080", "443", "B", "aa", "Z", "a0", "_"}
 	ipPool    = []string{"1.1.1.1", "1.1.1.0", "1.1.1.2", "10.0.0.1", "10.0.0.255", "10.0.1.0", "255.255.255.255", "0.0.0.0", "::1", "::2", "2001:db8::1", "2001:db8::ffff", "bad"}
 	regs      = []string{"a*", "^a", "b$", "^/a(/|$)", "(?i)^ab", "[0-9]+", ".", "^$", "(", "example\\.org$", "x-y|v1"}
-	hashes    = []string{"0-9999", "0-4999", "5000-9999", "0", "1|2|3", "0-99|9900-9999", "2500-7499", "10000", "5-3", "a"}
+	hashes    = []string{"0-9999", "0-4999", "5000-9999", "0", "1|2|3", "0-99|9900-9999", "2500-7499", "10000", "5-3", "a", "-1", "0--1", "99999999999999999999", "9223372036854775808", " 0 - 9999 ", "+5", "+0-+9999", "9999-9999", "0-0", "0-9999|", "|0", "0-10000", "1-2-3", "", "-"}
 	times     = []string{"20190204203000H", "20190204203000Z", "20190204123000Z", "20190205000000Z", "20190203235959Z", "20190204203001H", "20190204202959H", "19700101000000Z", "19691231235959A", "bad", "20190204203000"}
 	tods      = []string{"203000H", "123000Z", "000000Z", "235959Z", "203000Z", "120000H", "043000A", "12 Z", "bad", "240000Z", "203001H", "202959H"}
 )
@@ -100,6 +100,14 @@ func patList(r *vh.Rand, pool []string, want string) string {
 			ps = append(ps, pick(r, pool))
 		}
 	}
+	switch r.Intn(12) {
+	case 0:
+		ps = append(ps, "")
+	case 1:
+		ps = append([]string{""}, ps...)
+	case 2:
+		ps = append(ps[:1], append([]string{""}, ps[1:]...)...)
+	}
 	return strings.Join(ps, "|")
 }
 
@@ -109,8 +117,8 @@ func kvs(r *vh.Rand, keyPool, valPool []string, max int) [][2]string {
 	seen := map[string]bool{}
 	for i := 0; i < n; i++ {
 		k := pick(r, keyPool)
-		if seen[k] {
-			continue
+		if seen[k] && !r.Chance(1, 2) {
+			continue // repeated keys are kept half of the time: the first occurrence must win
 		}
 		seen[k] = true
 		out = append(out, [2]string{k, pick(r, valPool)})
@@ -158,9 +166,9 @@ func gen(r *vh.Rand) string {
 	qkeys := []string{"k", "K", "key", "uid", "q"}
 	hkeys := []string{"X-Key", "User-Agent", "Referer", "X-Empty"}
 	ckeys := []string{"k", "uid", "sid"}
-	query := kvs(r, qkeys, words, 3)
-	headers := kvs(r, hkeys, words, 3)
-	cookies := kvs(r, ckeys, []string{"a", "A", "abc", "v1", "x-y", "B"}, 3)
+	query := kvs(r, qkeys, words, 4)
+	headers := kvs(r, hkeys, words, 4)
+	cookies := kvs(r, ckeys, []string{"a", "A", "abc", "v1", "x-y", "B"}, 4)
 	var tags []string
 	if r.Chance(2, 3) {
 		tags = append(tags, hx(r.Pick("t1", "t2"))+":"+hx(r.Pick("a", "a:1", "b:x:y", ""))+"/"+hx(r.Pick("b", "c:2", "a")))
@@ -256,7 +264,7 @@ func gen(r *vh.Rand) string {
 	case name == "req_query_key_in" || name == "req_query_key_prefix_in":
 		a0 = patList(r, []string{"k", "K", "key", "uid", "q", "zz", "ke", "u", ""}, "")
 	case name == "req_header_key_in" || name == "res_header_key_in":
-		a0 = patList(r, []string{"X-Key", "User-Agent", "Referer", "X-Empty", "X-None", "Server"}, "")
+		a0 = patList(r, []string{"X-Key", "User-Agent", "Referer", "X-Empty", "X-None", "Server", "x-key", "X-KEY", "user-agent", "x-eMPTY", "X Key", "x_key", "server"}, "")
 	case name == "req_cookie_key_in":
 		a0 = patList(r, []string{"k", "uid", "sid", "zz"}, "")
 	case strings.HasPrefix(name, "req_query_value_"):
@@ -265,12 +273,18 @@ func gen(r *vh.Rand) string {
 	case strings.HasPrefix(name, "req_header_value_"):
 		a0 = pick(r, append(hkeys, "X-None"))
 		a1 = valPat(find(headers, a0))
+		if r.Chance(1, 4) { // header names are case-insensitive: Header.Get canonicalises the key
+			a0 = r.Pick(strings.ToLower(a0), strings.ToUpper(a0), strings.ToLower(a0[:1])+a0[1:], strings.Replace(a0, "-", " ", 1), strings.Replace(a0, "-", "_", 1))
+		}
 	case strings.HasPrefix(name, "req_cookie_value_"):
 		a0 = pick(r, append(ckeys, "zz"))
 		a1 = valPat(find(cookies, a0))
 	case name == "res_header_value_in":
 		a0 = pick(r, []string{"X-Key", "Server", "X-Empty", "X-None"})
 		a1 = valPat(find(rheaders, a0))
+		if r.Chance(1, 4) {
+			a0 = r.Pick(strings.ToLower(a0), strings.ToUpper(a0))
+		}
 	case name == "res_code_in":
 		a0 = patList(r, []string{"200", "404", "500", "301", "20", ""}, "")
 	case name == "req_context_value_in":
@@ -417,6 +431,41 @@ func gen(r *vh.Rand) string {
 	if hasFold && r.Bool() {
 		fold = "1"
 	}
+	// non-ASCII and invalid UTF-8 in patterns and attributes, where the primitive does not fold case
+	// (strings.ToUpper is modelled on ASCII only)
+	noFold := map[string]bool{"req_port_in": true, "req_query_key_in": true, "req_query_key_prefix_in": true, "req_tag_match": true,
+		"res_code_in": true, "ses_tls_client_ca_in": true}
+	if r.Chance(1, 8) && ((hasFold && fold == "0" && !strings.HasSuffix(name, "hash_in") && !strings.HasPrefix(name, "req_cookie")) || noFold[name]) {
+		na := []string{"é", "\xff", "日本", "\xc3", "ı", "ß", "\xef\xbf\xbd"}
+		for i := range na {
+			if u, err := strconv.Unquote(`"` + na[i] + `"`); err == nil {
+				na[i] = u
+			}
+		}
+		x := pick(r, na)
+		switch {
+		case strings.HasPrefix(name, "req_path_"):
+			path = path + x + r.Pick("", "/", "a")
+			a0 = r.Pick(path, a0+"|"+path, x, a0+x, "/"+x)
+		case strings.HasPrefix(name, "req_query_value_") && len(query) > 0:
+			query[0][1] += x
+			a0 = query[0][0]
+			a1 = r.Pick(query[0][1], x, a1+"|"+x)
+		case strings.HasPrefix(name, "req_header_value_") && len(headers) > 0:
+			headers[0][1] += x
+			a0 = headers[0][0]
+			a1 = r.Pick(headers[0][1], x, a1+"|"+x)
+		case name == "req_query_key_in" || name == "req_query_key_prefix_in":
+			query = append(query, [2]string{"k" + x, "v"})
+			a0 = r.Pick("k"+x, "k", a0+"|k"+x)
+		case name == "req_tag_match":
+			a1 = a1 + x
+			tags = []string{hx(a0) + ":" + hx(a1+":1") + "/" + hx(a1)}
+		case name == "req_port_in":
+			host = "example.org:80" + x
+			a0 = r.Pick("80"+x, "80")
+		}
+	}
 	tg := "-"
 	if len(tags) > 0 {
 		tg = strings.Join(tags, ",")
@@ -515,7 +564,7 @@ func exec(op string) string {
 	}
 	hr.URL.RawQuery = strings.Join(q, "&")
 	for _, kv := range headers {
-		hr.Header[kv[0]] = []string{kv[1]}
+		hr.Header[kv[0]] = append(hr.Header[kv[0]], kv[1])
 	}
 	if len(cookies) > 0 {
 		var cs []string
@@ -568,7 +617,7 @@ func exec(op string) string {
 		}
 		req.HttpResponse = &bfe_http.Response{StatusCode: code, Header: bfe_http.Header{}}
 		for _, kv := range rh {
-			req.HttpResponse.Header[kv[0]] = []string{kv[1]}
+			req.HttpResponse.Header[kv[0]] = append(req.HttpResponse.Header[kv[0]], kv[1])
 		}
 	}
 	if f[24] != "n" {
@@ -587,7 +636,16 @@ func exec(op string) string {
 			}
 		}
 	}
-	if cond.Match(req) {
+	first := cond.Match(req)
+	// the request caches its parsed query and cookies: a second evaluation, and one after other primitives
+	// touched the caches, must agree
+	if warm, err := condition.Build("req_query_exist() || req_cookie_key_in(\"k\") || default_t()"); err == nil {
+		warm.Match(req)
+	}
+	if cond.Match(req) != first {
+		return "unstable"
+	}
+	if first {
 		return "T"
 	}
 	return "F"
